@@ -319,6 +319,88 @@ def build_db(spec, m, sc):
     return db, span
 
 
+def build_model_variants(spec, nv):
+    """the same program with `nv` parameter variants (equal parameters; the variants differ in their input data)"""
+    with quiet():
+        m = ir.Simultaneous.from_string(source_of(spec), linear=bool(spec["linear"]))
+        m.alter_num_variants(nv)
+        m.assign(**spec["params"])
+        m.assign(**spec["assign"])
+        m.steady()
+        m.solve()
+    return m
+
+
+def build_db_multi(spec, m, m1, scs):
+    """one databox with len(scs) variants; scenario v gives the data of variant v (`exovals`: data of exogenized points)"""
+    sc0 = scs[0]
+    nv = len(scs)
+    start = make_period(sc0["freq"], sc0["start"])
+    span = start >> (start + sc0["n"] - 1)
+    db = ir.Databox.steady(m, span)
+    cells = {}      # (name, index) -> [value per variant or None]
+
+    def put(v, name, i, fn):
+        cells.setdefault((name, int(i)), [None] * nv)[v] = fn
+
+    for v, sc in enumerate(scs):
+        for sname, d in sc["unant"].items():
+            for i, x in d.items():
+                put(v, sname, i, lambda old, x=x: float(x))
+        for sname, d in sc["ant"].items():
+            for i, x in d.items():
+                put(v, "ant_" + sname, i, lambda old, x=x: float(x))
+        for name, d in list(sc["init"].items()) + list(sc.get("exovals", {}).items()):
+            for i, dev in d.items():
+                put(v, name, i, (lambda old, dev=dev: old * (1 + dev / 4)) if name in spec["logvars"] else (lambda old, dev=dev: old + dev))
+        for w, d in sc["exo"].items():
+            for i, x in d.items():
+                put(v, w, i, lambda old, x=x: float(x))
+    for (name, i), fns in sorted(cells.items()):
+        per = start + i
+        old = np.asarray(db[name].get_data(per), dtype=float).ravel()
+        old = [float(old[min(v, len(old) - 1)]) for v in range(nv)]
+        db[name][per] = [fns[v](old[v]) if fns[v] is not None else old[v] for v in range(nv)]
+    return db, span
+
+
+def gen_plan(rng, spec, n):
+    """swap pairs (variable, shock of its own equation): anticipated over 1-2 periods, unanticipated at one period"""
+    if spec["kind"].startswith("solow"):
+        pairs = [("z", "ez"), ("k", "ek")]
+    elif spec["kind"].startswith("rbc"):
+        pairs = [("z", "ez"), ("c", "ec")]
+    else:
+        pairs = [(v, "e" + v) for v in spec["tvars"] if ("e" + v) in spec["shocks"]]
+    if not pairs:
+        return None
+    plan = {"ant": [], "un": []}
+    used = set()
+    if rng.chance(0.8):
+        v, e = rng.choice(pairs)
+        i0 = rng.randint(0, n - 1)
+        idx = [i for i in range(i0, min(n, i0 + rng.randint(1, 2)))]
+        plan["ant"].append([v, e, idx])
+        used |= {(v, i) for i in idx}
+    if rng.chance(0.6) or not plan["ant"]:
+        v, e = rng.choice(pairs)
+        i = rng.randint(0, n - 1)
+        if (v, i) not in used:
+            plan["un"].append([v, e, i])
+    if not plan["ant"] and not plan["un"]:
+        return None
+    return plan
+
+
+def make_plan(m, span, plan):
+    p = ir.PlanSimulate(m, span)
+    for v, e, idx in plan["ant"]:
+        p.swap_anticipated(tuple(span[0] + int(i) for i in idx), (v, "ant_" + e))
+    for v, e, i in plan["un"]:
+        p.swap_unanticipated(span[0] + int(i), (v, e))
+    return p
+
+
 # ---------------------------------------------------------------------------------------
 # the independent oracle
 # ---------------------------------------------------------------------------------------
@@ -352,17 +434,19 @@ class Values:
         return float("nan")
 
 
-def table_of(db, names, lo_p, hi_p):
-    """{name: {serial: float}} over lo_p..hi_p (missing -> nan)"""
+def table_of(db, names, lo_p, hi_p, v=0):
+    """{name: {serial: float}} over lo_p..hi_p (missing -> nan) for variant `v` of the databox"""
     out = {}
     span = lo_p >> hi_p
     ser = [p.serial for p in span]
+    vid = v
     for n in names:
         if n not in db.keys():
             continue
         v = db[n]
         if hasattr(v, "get_data"):
-            arr = np.asarray(v.get_data(span), dtype=float).reshape(len(ser), -1)[:, 0]
+            arr = np.asarray(v.get_data(span), dtype=float).reshape(len(ser), -1)
+            arr = arr[:, min(vid, arr.shape[1] - 1)]
         else:
             arr = np.full(len(ser), float(v))
         out[n] = dict(zip(ser, (float(a) for a in arr)))
@@ -388,22 +472,31 @@ def first_order_terminal(m, spec, lookup, last_serial, nlead):
     return out
 
 
-def oracle_frames(in_tab, spec, base_lo, base_hi):
+def oracle_frames(in_tab, spec, base_lo, base_hi, extra_starts=()):
     """frames as the property's semantics of unanticipated shocks demands: a new frame starts in the first period and in every
     period with a non-zero unanticipated shock"""
     starts = [base_lo] + [s for s in range(base_lo + 1, base_hi + 1)
-                          if any((lambda x: math.isfinite(x) and x != 0)(in_tab.get(sh, {}).get(s, 0.0)) for sh in spec["shocks"])]
+                          if s in extra_starts or any((lambda x: math.isfinite(x) and x != 0)(in_tab.get(sh, {}).get(s, 0.0)) for sh in spec["shocks"])]
     return [(a, (starts[i + 1] - 1 if i + 1 < len(starts) else base_hi)) for i, a in enumerate(starts)]
 
 
-def judge_run(ctx: Ctx, case, m, spec, db, span, method, terminal, out, info, fo_out=None):
-    """the property on one successful simulate() call; records failures with ctx.fail"""
+def judge_run(ctx: Ctx, case, m, spec, db, span, method, terminal, out, info, fo_out=None, vid=0, plan=None):
+    """the property on one successful simulate() call (variant `vid` of the databoxes; `m` is a single-variant model with that
+    variant's parameters; `plan` = swap points of a simulation plan); records failures with ctx.fail"""
     base_lo, base_hi = span[0].serial, span[-1].serial
     start = span[0]
     lo_p, hi_p = start + m.max_lag - 1, start + (base_hi - base_lo) + m.max_lead + 1
     all_names = spec["tvars"] + spec["shocks"] + ["ant_" + s for s in spec["shocks"]] + spec["exo"] + (["obs"] if spec["meas"] else [])
-    in_tab = table_of(db, all_names, lo_p, hi_p)
-    out_tab = table_of(out, all_names, lo_p, hi_p)
+    in_tab = table_of(db, all_names, lo_p, hi_p, vid)
+    out_tab = table_of(out, all_names, lo_p, hi_p, vid)
+    # points of a simulation plan: exogenized (variable, serial) hold input data, endogenized (shock, serial) are outputs
+    exo_pts, endo_pts = set(), set()
+    if plan:
+        for v_, e_, idx in plan["ant"]:
+            for i in idx:
+                exo_pts.add((v_, base_lo + int(i))); endo_pts.add(("ant_" + e_, base_lo + int(i)))
+        for v_, e_, i in plan["un"]:
+            exo_pts.add((v_, base_lo + int(i))); endo_pts.add((e_, base_lo + int(i)))
     params = dict(spec["params"])
     compiled = [compile_equation(e) for e in spec["eqs"]]
     scale = max([1.0] + [abs(v) for n in spec["tvars"] for v in out_tab.get(n, {}).values() if math.isfinite(v)])
@@ -417,6 +510,8 @@ def judge_run(ctx: Ctx, case, m, spec, db, span, method, terminal, out, info, fo
     for nm in spec["shocks"] + ["ant_" + s for s in spec["shocks"]] + spec["exo"] + (["obs"] if spec["meas"] else []):
         for s in range(base_lo, base_hi + 1):
             a, b = in_tab.get(nm, {}).get(s, float("nan")), out_tab.get(nm, {}).get(s, float("nan"))
+            if (nm, s) in endo_pts:
+                continue
             if not same(a, b):
                 site = "measurement-untouched" if nm == "obs" else "inputs-altered"
                 ctx.fail(site, case, f"{method}: {nm}[{s - base_lo}] came in as {a!r} and is returned as {b!r}")
@@ -428,9 +523,16 @@ def judge_run(ctx: Ctx, case, m, spec, db, span, method, terminal, out, info, fo
                 ctx.fail("inputs-altered", case, f"{method}: initial condition {nm}[{s - base_lo}] came in as {a!r} and is returned as {b!r}")
                 return n_checked
 
+    # (1b) exogenized points of the plan hold this variant's own input data
+    for (nm, s_) in sorted(exo_pts):
+        a, b = in_tab.get(nm, {}).get(s_, float("nan")), out_tab.get(nm, {}).get(s_, float("nan"))
+        if not (abs(a - b) <= 1e-9 * max(1.0, abs(a))):
+            ctx.fail("exogenized-input-not-honoured", case, f"{method} variant {vid}: {nm}[{s_ - base_lo}] is exogenized with input {a!r} but is returned as {b!r}")
+            return n_checked
+
     # (2) frames
     if method == "stacked_time":
-        frames = oracle_frames(in_tab, spec, base_lo, base_hi)
+        frames = oracle_frames(in_tab, spec, base_lo, base_hi, [s_ for (nm, s_) in endo_pts if not nm.startswith("ant_")])
         sim_last = {f: base_hi for f in frames}
     else:
         frames = [(s, s) for s in range(base_lo, base_hi + 1)]
@@ -449,6 +551,7 @@ def judge_run(ctx: Ctx, case, m, spec, db, span, method, terminal, out, info, fo
     for k, (fa, fb) in enumerate(frames):
         fdb = info["frame_databoxes"][k]
         f_tab = table_of(fdb, spec["tvars"], start, span[-1])
+        f_sh = table_of(fdb, spec["shocks"] + ["ant_" + s_ for s_ in spec["shocks"]], start, span[-1]) if endo_pts else {}
         V = Values()
         last = sim_last[(fa, fb)]
         # shocks in force in this frame: anticipated as they came in; unanticipated at the frame start only (none expected later)
@@ -457,9 +560,13 @@ def judge_run(ctx: Ctx, case, m, spec, db, span, method, terminal, out, info, fo
             sh_tab[sname] = {}
             for s in range(base_lo, base_hi + 1):
                 u = in_tab.get(sname, {}).get(s, 0.0)
+                if (sname, s) in endo_pts and s == fa:
+                    u = f_sh.get(sname, {}).get(s, float("nan"))          # endogenized: an output of this frame
                 if method == "stacked_time" and s > fa:
                     u = 0.0      # not known when the frame's expectations are formed
                 a = in_tab.get("ant_" + sname, {}).get(s, 0.0)
+                if ("ant_" + sname, s) in endo_pts and s >= fa:
+                    a = f_sh.get("ant_" + sname, {}).get(s, float("nan"))  # endogenized: an output of this frame
                 sh_tab[sname][s] = (0.0 if u != u else u) + (0.0 if a != a else a)
         V.add(base_lo, base_hi, sh_tab)
         V.add(base_lo, base_hi, {w: in_tab.get(w, {}) for w in spec["exo"]})
@@ -499,7 +606,7 @@ def judge_run(ctx: Ctx, case, m, spec, db, span, method, terminal, out, info, fo
 
     # (4) linear model: coincide with the first-order simulation
     if spec["linear"] and fo_out is not None and (terminal == "first_order" or m.max_lead == 0):
-        fo_tab = table_of(fo_out, spec["tvars"], start, span[-1])
+        fo_tab = table_of(fo_out, spec["tvars"], start, span[-1], vid)
         for nm in spec["tvars"]:
             for s in range(base_lo, base_hi + 1):
                 a, b = fo_tab[nm][s], out_tab[nm][s]
@@ -596,6 +703,87 @@ def run_case(ctx: Ctx, spec, sc, lines_out=None, only_cfg=None):
             ctx.nontriv((spec["kind"], cfg["method"], terminal, cfg["initial_guess"], min(nfr, 3), m.max_lead > 0, -m.max_lag > 1,
                          bool(sc["ant"]), bool(sc["init"]), sc["n"]))
     return judged
+
+
+
+def run_variant_case(ctx: Ctx, spec, scs, plan, only_cfg=None):
+    """several variants with different input data, simulated together, with a simulation plan (swap points) or without:
+    every variant is judged against ITS OWN inputs"""
+    m1 = build_model(spec)
+    if m1 is None:
+        ctx.count("gen:model-rejected")
+        return 0
+    nv = len(scs)
+    m = build_model_variants(spec, nv)
+    db, span = build_db_multi(spec, m, m1, scs)
+    judged = 0
+    cfgs = [dict(method="stacked_time", terminal="first_order", initial_guess=ig, solver="func-only") for ig in ("first_order", "data")]
+    if m1.max_lead == 0:
+        cfgs.append(dict(method="period_by_period", initial_guess="data", solver="func-only"))
+    if only_cfg is not None:
+        cfgs = [only_cfg]
+    fo_out = None
+    # agreement with first_order is demanded without a plan only: the property's linear clause is about shocks; with a plan that mixes
+    # anticipated and unanticipated swaps the two methods give the earlier frames different information (see notes/C06.md)
+    if spec["linear"] and not plan:
+        try:
+            with quiet():
+                fo_out = m.simulate(db, span, method="first_order", when_fails="silent")
+        except Exception as e:
+            ctx.count(f"variants:first-order-raised:{type(e).__name__}")
+    for cfg in cfgs:
+        kw = {"initial_guess": cfg["initial_guess"], "solver_settings": {"max_iterations": MAX_ITER, "step_tolerance": float("inf")}}
+        if cfg["method"] == "stacked_time":
+            kw["terminal"] = cfg["terminal"]
+        try:
+            with quiet():
+                out, info = m.simulate(db, span, method=cfg["method"], plan=make_plan(m, span, plan) if plan else None,
+                                       return_info=True, remove_terminal=False, when_fails="silent", unpack_singleton=False, **kw)
+        except Exception as e:
+            ctx.count(f"variants:{cfg['method']}:raised:{type(e).__name__}")
+            continue
+        terminal = cfg.get("terminal", "data")
+        case = {"spec": spec, "scenarios": scs, "plan": plan, "config": cfg}
+        for v in range(nv):
+            if not all(st.is_success for st in info[v]["exit_status"]):
+                ctx.count(f"not-success:variants:{cfg['method']}")
+                continue
+            nf = len(ctx.failures)
+            k = judge_run(ctx, case, m1, spec, db, span, cfg["method"], terminal, out, info[v], fo_out, vid=v, plan=plan)
+            ctx.evaluations += 1
+            judged += 1
+            ctx.count("oracle:residuals-recomputed", k)
+            ctx.count(f"judged:variants:{cfg['method']}:{'plan' if plan else 'no-plan'}")
+            if len(ctx.failures) == nf:
+                ctx.nontriv((spec["kind"], "variants", cfg["method"], cfg["initial_guess"], v, bool(plan and plan["ant"]), bool(plan and plan["un"]),
+                             min(len(info[v]["frames"]), 3), m1.max_lead > 0, scs[0]["n"]))
+    return judged
+
+
+def gen_variant_case(rng, spec, m1):
+    nonlinear = not spec["linear"]
+    sc0 = gen_scenario(rng, spec, m1, nonlinear)
+    sc0["term_data"] = False
+    nv = rng.choice([2, 2, 3])
+    scs = [sc0]
+    for v in range(1, nv):
+        sc = gen_scenario(rng.fork(f"variant{v}"), spec, m1, nonlinear)
+        sc.update(freq=sc0["freq"], start=sc0["start"], n=sc0["n"], term_data=False)
+        for key in ("unant", "ant"):
+            sc[key] = {s_: {i: x for i, x in d.items() if int(i) < sc0["n"]} for s_, d in sc[key].items()}
+        scs.append(sc)
+    plan = gen_plan(rng, spec, sc0["n"]) if rng.chance(0.8) else None
+    if plan:
+        size = 0.0625 if nonlinear else 1.0
+        for v, sc in enumerate(scs):
+            ev = {}
+            for var, _, idx in plan["ant"]:
+                for i in idx:
+                    ev.setdefault(var, {})[i] = size * (0.5 + 0.75 * v) * rng.choice([1, -1])
+            for var, _, i in plan["un"]:
+                ev.setdefault(var, {})[i] = size * (0.25 + 0.5 * v) * rng.choice([1, -1])
+            sc["exovals"] = ev
+    return scs, plan
 
 
 # ---------------------------------------------------------------------------------------
@@ -895,7 +1083,10 @@ def replay_corpus(ctx: Ctx):
         payload = json.load(open(path))
         case = payload.get("case", payload)
         try:
-            run_case(ctx, case["spec"], case["scenario"], only_cfg=case.get("config"))
+            if "scenarios" in case:
+                run_variant_case(ctx, case["spec"], case["scenarios"], case.get("plan"), only_cfg=case.get("config"))
+            else:
+                run_case(ctx, case["spec"], case["scenario"], only_cfg=case.get("config"))
             ctx.count("corpus:replayed")
         except Exception as e:
             ctx.count(f"corpus:raised:{type(e).__name__}")
@@ -934,6 +1125,22 @@ def run(ctx: Ctx):
                 items += lean_lines_for_case(ctx, spec, sc, rng.fork("lean"))
             except Exception as e:
                 ctx.count(f"lean-lines:raised:{type(e).__name__}")
+    # several variants with different data, with and without a simulation plan (swap points)
+    for i in range(ctx.n(10, 120)):
+        rng = ctx.rng.fork(f"variants{i}")
+        spec = gen_spec(rng)
+        try:
+            m1 = build_model(spec)
+            if m1 is None:
+                ctx.count("gen:model-rejected")
+                continue
+            scs, plan = gen_variant_case(rng, spec, m1)
+            ctx.count(f"variants:model:{spec['kind']}:{len(scs)}v:{'plan' if plan else 'no-plan'}")
+            run_variant_case(ctx, spec, scs, plan)
+            if i == 0:
+                ctx.sample({"source": source_of(spec), "variant_scenarios": scs, "plan": plan})
+        except Exception as e:
+            ctx.count(f"variants:raised:{type(e).__name__}")
     replies = ctx.model("C06", [it[1] for it in items])
     compare_items(ctx, items, replies)
     ctx.extra["programs"] = sum(v for k, v in ctx.counts.items() if k.startswith("model:"))
@@ -950,6 +1157,8 @@ def search(ctx: Ctx, seeds):
                 continue
             sc = gen_scenario(rng, spec, m, not spec["linear"])
             run_case(ctx, spec, sc)
+            scs, plan = gen_variant_case(rng.fork("variants"), spec, m)
+            run_variant_case(ctx, spec, scs, plan)
         except Exception as e:
             ctx.count(f"search:raised:{type(e).__name__}")
         if ctx.failures:
@@ -958,7 +1167,9 @@ def search(ctx: Ctx, seeds):
 
 def replay(ctx: Ctx, payload):
     case = payload.get("case", payload)
-    if isinstance(case, dict) and "spec" in case:
+    if isinstance(case, dict) and "scenarios" in case:
+        run_variant_case(ctx, case["spec"], case["scenarios"], case.get("plan"), only_cfg=case.get("config"))
+    elif isinstance(case, dict) and "spec" in case:
         run_case(ctx, case["spec"], case["scenario"], only_cfg=case.get("config"))
         rng = ctx.rng.fork("replay")
         items = lean_lines_for_case(ctx, case["spec"], case["scenario"], rng)
